@@ -62,6 +62,14 @@ class NasWell(Stream):
                      psi=rng.range(1, 15), pti=rng.below(255), t=rng.choice([0x11, 0x12, 0x13, 0x21, 0x91]), qos=qos,
                      ambr=rng.bytes(6), pre=pre, a=rng.choice([bytes([10, 60, 0, 1]), bytes(4), b"\xff" * 4, rng.bytes(4)]),
                      post=post, trailing=rng.choice([b"", bytes([0x12, 5]), rng.bytes(5)]))
+            # MAC and sequence-number octets that look like the protocol's own framing (message types, discriminators, IEIs):
+            # the security header is skipped whatever it holds
+            framing = [0x68, 0x7e, 0x2e, 0x00, 0xc2, 0x29, 0x01, 0x67, 0x12]
+            if i % 4 == 0:
+                p["mac"] = bytes([framing[(i // 4) % len(framing)]]) + p["mac"][1:]
+            if i % 4 == 2:
+                p["mac"] = bytes([framing[(i // 4) % len(framing)], framing[(i // 8) % len(framing)]]) + p["mac"][2:]
+                p["sqn"] = framing[(i // 4 + 3) % len(framing)]
             if len(est_accept(p["psi"], p["pti"], p["t"], qos, p["ambr"], pre, p["a"], post)) > 65535:
                 continue
             cs.append(p)
